@@ -164,6 +164,33 @@ type evRun struct {
 
 var evPerturbOnce sync.Once
 
+// evCtx, when set by the running check, receives what every executed case let the monitor observe:
+// the emit/delivery interleaving fingerprint (how many Emit calls had started at each delivery) and
+// the feed/back-pressure configuration it ran under.
+var evCtx *core.Ctx
+
+func evObserve(c *evCase, out *evRun) {
+	ctx := evCtx
+	if ctx == nil {
+		return
+	}
+	var b strings.Builder
+	for _, d := range out.Dels {
+		fmt.Fprintf(&b, "%d,", d.Started)
+	}
+	ctx.Seen("emit_delivery_interleavings", b.String())
+	ctx.Seen("feed_configs", fmt.Sprintf("%s/%s/w%d/s%d", c.Kind, c.Feed, c.WinOut, c.SinkDelayMs))
+	ctx.Count("observed.deliveries", int64(len(out.Dels)))
+	ctx.Count("observed.emit_calls", int64(len(out.Emits)))
+	mid := 0
+	for _, d := range out.Dels {
+		if int(d.Started) < len(out.Emits) {
+			mid++
+		}
+	}
+	ctx.Count("observed.deliveries_while_producer_still_emitting", int64(mid))
+}
+
 func evPerturb() {
 	evPerturbOnce.Do(func() {
 		sched.Seed(12345)
@@ -237,6 +264,7 @@ func (c *evCase) run(expectDels int) evRun {
 	}
 	out.Dels = rec.Deliveries()
 	out.Overload = rec.Overloaded()
+	evObserve(c, &out)
 	return out
 }
 
